@@ -7,6 +7,9 @@ here = os.path.dirname(os.path.dirname(os.path.abspath(__file__)))
 bad = 0
 for d in sorted(glob.glob(os.path.join(here, "seeded", "S*"))):
     m = json.load(open(os.path.join(d, "meta.json")))
+    if m.get("superseded"):
+        print(f"{m['id']}: superseded — {m['superseded'][:90]}…")
+        continue
     props = sorted(set([m["property_broken"]] + m["checks"]["caught_by_properties"]))
     r = subprocess.run([sys.executable, os.path.join(here, "tools", "eval_seed.py"), os.path.join(d, "patch.diff"), "--props", ",".join(props)], capture_output=True, text=True)
     try:
